@@ -199,13 +199,47 @@ def build_graph(case):
         h.shuffle(order)
     if mode == 2:
         label = h.sample(range(0, 3 * n + 5), n)
+    # the annotation is a tuple (as the library's generators write it) or, in a third of the cases, a LIST (as a
+    # network read back from JSON / built by hand carries it): the extractors must not work in place on it
+    as_list = h.random() < 0.34
     for v in order:
         G.add_node(label[v], tag="v%d" % v)
-        G.nodes[label[v]][NetworkNames.JOINT_DEGREE] = tuple(case["jds"][v])
+        G.nodes[label[v]][NetworkNames.JOINT_DEGREE] = list(case["jds"][v]) if as_list else tuple(case["jds"][v])
     for i, (u, v, t) in enumerate(case["edges"]):
         G.add_edge(label[u], label[v], w=i)
         G.edges[label[u], label[v]][NetworkNames.TOPOLOGY] = _tname(case, t)
     return G
+
+
+def add_disjoint_copy(G):
+    """adds a relabelled disjoint copy of the whole annotated network IN PLACE (still clean, same joint degrees, twice
+    the edges of every topology); returns the new vertices so that the caller can remove them again"""
+    nodes = list(G.nodes())
+    off = max([v for v in nodes if isinstance(v, int)] + [0]) + 1000
+    new = {v: off + i for i, v in enumerate(nodes)}
+    for v in nodes:
+        G.add_node(new[v])
+        G.nodes[new[v]].update({k: (list(x) if isinstance(x, list) else x) for k, x in G.nodes[v].items()})
+    for u, v, d in list(G.edges(data=True)):
+        if u in new and v in new:
+            G.add_edge(new[u], new[v])
+            G.edges[new[u], new[v]].update(dict(d))
+    return [new[v] for v in nodes]
+
+
+def extractor_with_history(case, G):
+    """the extractor under test; in a third of the cases it has a HISTORY: it was created on, and asked about, a larger
+    network (the network plus a disjoint copy of itself); the caller then removed the copy in place.  Every answer it
+    gives afterwards must describe the network as it is now (edge counts remembered from before are stale)"""
+    from gcmpy.names.tools_names import ToolsNames
+    from gcmpy.tools.joint_excess_joint_degree import JointExcessJointDegree
+    hist = (len(case["edges"]) + 2 * len(case["jds"])) % 3 == 0 and G.number_of_nodes() > 0
+    copies = add_disjoint_copy(G) if hist else []
+    X = JointExcessJointDegree({ToolsNames.NETWORK: G, ToolsNames.EDGE_NAMES: list(case["names"])})
+    if hist:
+        X.get_ejks()
+        G.remove_nodes_from(copies)
+    return X
 
 
 def impl(case):
@@ -213,7 +247,7 @@ def impl(case):
     from gcmpy.tools.joint_excess_degree import JointExcessDegree
     from gcmpy.tools.joint_excess_joint_degree import JointExcessJointDegree
     G = build_graph(case)
-    X = JointExcessJointDegree({ToolsNames.NETWORK: G, ToolsNames.EDGE_NAMES: list(case["names"])})
+    X = extractor_with_history(case, G)
     objs, calls = [], []
     for _ in range(case["ncalls"]):
         r = X.get_ejks()
